@@ -133,6 +133,14 @@ func init() {
 					NativePatches: []NativePatch{{Module: "github.com/stapelberg/glog", File: "glog.go", Old: "os.Exit(255)", New: "panic(\"verif-process-exit\")"}}},
 				{Name: "replay", Pkg: "internal/ircserver", PkgName: "ircserver", Files: ircFiles, SymFiles: ircSym, NatFiles: ircNat,
 					Entry: "verifHarness_C07_replay", Params: tp, Unwind: 8, Solver: "z3-new"},
+				{Name: "snapshot", Pkg: "", PkgName: "main", Files: []string{"main/c02.go", "main/c07.go", "main/c16.go"}, SymFiles: []string{"main/tmp_sym.go"}, NatFiles: []string{"main/tmp_native.go"},
+					Entry: "verifHarness_C07_snapshot", Params: map[string]int{"entries": 2}, Unwind: 10, NoReplay: true,
+					Redirect: map[string]string{
+						"(*" + repoMod + "/internal/ircserver.IRCServer).Unmarshal":    "verifStub_Unmarshal",
+						"(*" + repoMod + "/internal/ircserver.IRCServer).Marshal":      "verifStub_Marshal",
+						"(*" + repoMod + ".FSM).applyRobustMessage":                    "verifStub_foldEntry",
+						"(*" + repoMod + "/internal/outputstream.OutputStream).Delete": "verifStub_outDelete",
+					}},
 			}
 		},
 		Assumptions: []string{
